@@ -63,6 +63,7 @@
 #include "parser.h"
 #include "scanners.h"
 #include "stack.h"
+#include "verif_hooks.h"
 
 
 #define print(x) d_string_append(out, x)
@@ -2036,6 +2037,7 @@ parse_citation:
 			break;
 
 		default:
+			MMD6_EVENT(MMD6_EV_UNKNOWN_TOKEN, MMD6_W_LATEX, t->type);
 			fprintf(stderr, "Unknown token type: %d\n", t->type);
 			token_describe(t, source);
 			break;
